@@ -402,6 +402,7 @@ async def tuple(iterable: Union[Iterable[T], AsyncIterable[T]] = ()) -> Tuple[T,
 
 async def dict(  # noqa: F811
     iterable: Union[Iterable[Tuple[HK, T]], AsyncIterable[Tuple[HK, T]]] = (),
+    /,
     **kwargs: T,
 ) -> Dict[Any, T]:
     """
